@@ -76,7 +76,7 @@ impl BigModel {
         let p = &self.spec.props[i];
         p.m != 0 && self.layer_of(s) >= p.min_layer && mix(self.spec.seed ^ 0xABCD, s, i as u64) % p.m == 0
     }
-    fn cond(&self, i: usize, s: u64) -> bool {
+    pub fn cond(&self, i: usize, s: u64) -> bool {
         match self.spec.props[i].exp {
             0 => !self.hit(i, s),
             _ => self.hit(i, s),
@@ -317,6 +317,35 @@ pub struct RunOut {
     /// simulation: last states of the first trace of thread checker-0
     pub first_trace: Vec<u64>,
     pub order_digest: u64,
+    /// C03 on the run's own discoveries: every path `discoveries()` returns is re-validated against the model (real
+    /// in-boundary path from an initial state; last state violates / satisfies; eventually: no state satisfies and the path
+    /// ends in a terminal state or — simulation — closes a cycle). One text per discovery that fails.
+    #[serde(default)]
+    pub bad_disc: Vec<String>,
+}
+
+/// the declarative reading of C03 for one returned discovery; `None` = genuine
+pub fn discovery_defect(m: &BigModel, prop: usize, states: &[u64], simulation: bool) -> Option<String> {
+    if states.is_empty() { return Some("empty path".into()); }
+    if !(m.inits().contains(&states[0]) && m.in_boundary(states[0])) { return Some("does not start in an in-boundary initial state".into()); }
+    for w in states.windows(2) {
+        let step = (0..m.n_actions(w[0])).any(|a| m.next(w[0], a) == Some(w[1]));
+        if !step || !m.in_boundary(w[1]) { return Some(format!("{} -> {} is not an in-boundary transition of the model", w[0], w[1])); }
+    }
+    let last = *states.last().unwrap();
+    match m.spec.props[prop].exp {
+        0 => if m.cond(prop, last) { return Some("last state does not violate the always-property".into()); },
+        2 => if !m.cond(prop, last) { return Some("last state does not satisfy the sometimes-property".into()); },
+        _ => {
+            if let Some(s) = states.iter().find(|s| m.cond(prop, **s)) { return Some(format!("state {} on the path satisfies the eventually-condition", s)); }
+            let terminal = !(0..m.n_actions(last)).any(|a| m.next(last, a).map(|t| m.in_boundary(t)).unwrap_or(false));
+            let closes_cycle = simulation && states[..states.len() - 1].contains(&last);
+            if !terminal && !closes_cycle {
+                return Some(format!("eventually-counterexample of {} states ends in state {} which has an in-boundary successor{}", states.len(), last, if simulation { " and closes no cycle" } else { "" }));
+            }
+        }
+    }
+    None
 }
 
 struct Recorder {
@@ -513,33 +542,46 @@ pub fn run_child(cfg: &RunCfg) -> RunOut {
     }
     let t0 = Instant::now();
     // (joined, unique, state_count, max_depth, discoveries, is_done)
-    type Fin = (usize, usize, usize, Vec<usize>, bool);
-    fn fin<C: Checker<BigModel>>(c: &C) -> Fin {
-        let mut d: Vec<usize> = c.discoveries().keys().map(|n| PROP_NAMES.iter().position(|x| x == n).unwrap()).collect();
+    type Fin = (usize, usize, usize, Vec<usize>, bool, Vec<String>);
+    let is_sim = !matches!(cfg.strategy.as_str(), "bfs" | "dfs" | "ondemand");
+    let fin_sim = is_sim;
+    fn fin_of<C: Checker<BigModel>>(c: &C, sim: bool) -> Fin {
+        let mut d: Vec<usize> = vec![];
+        let mut bad = vec![];
+        for (n, p) in c.discoveries() {
+            let i = PROP_NAMES.iter().position(|x| *x == n).unwrap();
+            d.push(i);
+            let states = p.into_states();
+            if let Some(why) = discovery_defect(c.model(), i, &states, sim) {
+                bad.push(format!("discovery for property {} ({}): {}", i, ["always", "eventually", "sometimes"][c.model().spec.props[i].exp.min(2) as usize], why));
+            }
+        }
         d.sort();
-        (c.unique_state_count(), c.state_count(), c.max_depth(), d, c.is_done())
+        (c.unique_state_count(), c.state_count(), c.max_depth(), d, c.is_done(), bad)
     }
+
     let strategy = cfg.strategy.clone();
     let (seed, chooser, script) = (cfg.sim_seed, cfg.chooser.clone(), cfg.script.clone());
     let r: Result<Fin, ()> = std::panic::catch_unwind(std::panic::AssertUnwindSafe(move || match strategy.as_str() {
-        "bfs" => fin(&b.spawn_bfs().join()),
-        "dfs" => fin(&b.spawn_dfs().join()),
+        "bfs" => fin_of(&b.spawn_bfs().join(), fin_sim),
+        "dfs" => fin_of(&b.spawn_dfs().join(), fin_sim),
         "ondemand" => {
             let c = b.spawn_on_demand();
             c.run_to_completion();
-            fin(&c.join())
+            fin_of(&c.join(), fin_sim)
         }
         _ => match chooser.as_str() {
-            "lcg" => fin(&b.spawn_simulation(seed, LcgChooser).join()),
-            "script" => fin(&b.spawn_simulation(seed, ScriptChooser(script)).join()),
-            "lane" => fin(&b.spawn_simulation(seed, LaneChooser(seed)).join()),
-            _ => fin(&b.spawn_simulation(seed, stateright::UniformChooser).join()),
+            "lcg" => fin_of(&b.spawn_simulation(seed, LcgChooser).join(), fin_sim),
+            "script" => fin_of(&b.spawn_simulation(seed, ScriptChooser(script)).join(), fin_sim),
+            "lane" => fin_of(&b.spawn_simulation(seed, LaneChooser(seed)).join(), fin_sim),
+            _ => fin_of(&b.spawn_simulation(seed, stateright::UniformChooser).join(), fin_sim),
         },
     }))
     .map_err(|_| ());
     out.wall_ms = t0.elapsed().as_millis() as u64;
     match r {
-        Ok((u, sc, md, d, done)) => {
+        Ok((u, sc, md, d, done, bad)) => {
+            out.bad_disc = bad;
             out.joined = "ok".into();
             out.unique = u;
             out.state_count = sc;
